@@ -2,7 +2,7 @@
 from checks import symgen
 
 ID = 'C01'
-PROP_MODULES = ['QRV.Props.C01', 'QRV.Props.C01RMQR']
+PROP_MODULES = ['QRV.Props.C01', 'QRV.Props.C01RMQR', 'QRV.Props.C01Micro']
 RULE = ('every (version, level) pair of the three symbologies (160 + 8 + 64) with explicit masks rotating with the seed and automatic masking, x structured segment '
         'lists: exact-capacity fills with 0-9 spare bits (every terminator / pad-alignment case), fills whose terminator ends on a codeword boundary, maximum '
         'character counts per mode, single-mode maxima and maxima-1, mixed-mode lists, mode changes at v9/10 and v26/27, Micro QR M1/M3 half-codeword symbols. '
@@ -13,18 +13,18 @@ TRUSTED = [
     'Model/QR.lean, Model/Micro.lean, Model/RMQR.lean (+ Sym, Codec, Bits, Bitmap, RS): hand transcriptions tied by differential runs on generated descriptions',
     'generators use the reference capacity tables of checks/refqr.py, refmicro.py (independent) and, for rMQR, the regenerated tables',
 ]
-ASSUMPTIONS = ['Micro QR: the end-to-end theorem is not proved yet (QR and rMQR are); it is covered by the differential round trips']
-PARTIAL = ('roundtrip_QR is proved in full for every valid description (unbounded payloads, all 160 (version, level) pairs, explicit and automatic masks); '
-           'roundtrip_RMQR is proved in full for every valid rMQR description (32 versions x 2 levels; the last codeword, which 11 versions emit incomplete - finding D18 - is restored by the Reed-Solomon step: C14.dec_complete); the Micro QR statement is exercised by differential round trips only')
+ASSUMPTIONS = []
+PARTIAL = ('none for the models: roundtrip_QR, roundtrip_Micro and roundtrip_RMQR are proved in full for every valid description (unbounded payloads, all 160 + 8 + 64 (version, level) pairs, explicit and automatic masks); '
+           'Micro QR needs the property\'s non-emptiness hypothesis (an empty numeric segment reads as the terminator, M4 drops empty segments); the tie of the models to the Go code is the differential round trip')
 MANIFEST = {
-    'technique': 'Lean 4: full round-trip theorems for QR and rMQR (stream layout/parse, block split/interleave inverse, placement walk, format, mask involution, clean RS blocks) from generic lemmas + kernel-evaluated per-version facts; differential round trips for all three symbologies',
+    'technique': 'Lean 4: full round-trip theorems for QR, Micro QR and rMQR (stream layout/parse, block split/interleave inverse, placement walk, format, mask involution, clean RS blocks) from generic lemmas + kernel-evaluated per-version facts; differential round trips for all three symbologies',
     'text': ('QRV/Props/C01.lean proves roundtrip_QR: for the function-for-function model of the QR encoder and decoder, EVERY valid description (Spec.Valid: versions 1-40, four levels, '
              'explicit or automatic mask, any list of segments valid for their modes whose standard bit length fits) encodes successfully and decodes to the same version, level, mask and '
              'segments - by composing proved components: the stream is the standard\'s and parses back (C16/C17), blocks split/interleave and de-interleave inversely, encoder and decoder walks '
              'visit the same modules (generic walk lemma + kernel-evaluated fuel/length facts for all 40 versions), format information reads back (C11), masking is an involution on data modules '
-             '(C18), clean blocks pass the RS decoder (C14). C01RMQR.lean proves roundtrip_RMQR the same way for all 32 rMQR versions and both levels (the walk skips column 1, so for 11 versions the last codeword is placed incomplete; the proof lets the last codeword read back be arbitrary and uses the decoder completeness theorem of C14 to restore it). Micro QR is not yet proved end-to-end; all three symbologies are exercised by differential round trips over every '
+             '(C18), clean blocks pass the RS decoder (C14). C01RMQR.lean proves roundtrip_RMQR the same way for all 32 rMQR versions and both levels (the walk skips column 1, so for 11 versions the last codeword is placed incomplete; the proof lets the last codeword read back be arbitrary and uses the decoder completeness theorem of C14 to restore it). C01Micro.lean proves roundtrip_Micro for M1-M4 incl. the 4-bit final data codeword of M1/M3 (skipped stream bits on both sides) under the property's non-emptiness hypothesis. All three symbologies are exercised by differential round trips over every '
              '(version, level) pair, masks and structured payloads, on implementation and model.'),
-    'note': 'Trusted: Lean kernel; hand-written symbol models tied by correspondence on generated descriptions; Micro QR round trip is exploration-level.',
+    'note': 'Trusted: Lean kernel; hand-written symbol models tied by correspondence on generated descriptions; ',
 }
 
 
